@@ -535,6 +535,54 @@ def r15f(ctx, rep, cr):
     rep.floor('R15f', 'parser functions checked', n, 5)
 
 
+def r15g(ctx, rep):
+    rep.rule('R15g', 'an explicit INSERT column list is used as written: in QueryRouter::exec_insert (and its async twin) the columns that are '
+                     'paired by position with the VALUES tuple (Iterator::zip) come straight from InsertStmt.columns — no detour through the '
+                     'table schema and no filtering, sorting or searching on the way — or, when the statement names no columns, straight '
+                     'from the schema. A column list re-ordered into schema order while the values stay in statement order stores '
+                     '`INSERT INTO t (b, a) VALUES (1, 2)` as a=1, b=2: the text no longer means what the direct engine call means')
+    cr = ctx.crate('query_router')
+    REORDER = re.compile(r'::(filter|filter_map|sort\w*|retain|position|find|contains|dedup\w*|rev|skip|take|binary_search\w*)$')
+    n = 0
+    for name, f in sorted(cr.fns.items()):
+        if not re.match(r'query_router::QueryRouter::exec_insert\w*(::\{closure#\d+\})*$', name):
+            continue
+        defs = A.Defs(f)
+        for c in A.calls(f):
+            if not (re.search(r'Iterator>?::zip$', c.generic) or re.search(r'Iterator>?::zip$', c.resolved)) or len(c.args) < 2:
+                continue
+            sides = [A.backward_slice(f, [a], defs) if a[0] != 'k' else None for a in c.args[:2]]
+            if any(x is None for x in sides):
+                continue
+
+            def deep(sl):
+                flds, calls = set(sl.fields), set(sl.calls)
+                for cn in sl.closures:
+                    h = cr.fns.get(cn[8:] if cn.startswith('closure:') else cn)
+                    if h is not None:
+                        flds |= set(A.field_reads(h))
+                        calls |= {x.resolved for x in A.calls(h)} | {x.generic for x in A.calls(h)}
+                return flds, calls
+            info = [deep(sl) for sl in sides]
+            is_values = [any(re.search(r'InsertSource|InsertStmt\.source', x) for x in fl) for (fl, _) in info]
+            for k_, (fl, cl) in enumerate(info):
+                if is_values[k_] or not is_values[1 - k_]:
+                    continue   # k_ is the column side of a pairing with the VALUES tuple
+                n += 1
+                rep.analysed(f)
+                has_stmt = any(x.endswith('InsertStmt.columns') for x in fl)
+                schema = sorted(lib.short(x) for x in cl if re.search(r'::get_schema$', x)) + \
+                    sorted(x.split('::')[-1] for x in fl if re.search(r'(Schema|TableSchema)\.columns$', x))
+                reorder = sorted({lib.short(x) for x in cl if REORDER.search(x)})
+                if has_stmt and (schema or reorder):
+                    rep.violation('R15g', f, 'explicit-columns-reordered', f.loc(c.line),
+                                  'the column side of the positional pairing with VALUES derives from the statement\'s column list *and* %s: '
+                                  'the columns no longer line up with the values as written' % ', '.join(schema + reorder))
+                else:
+                    rep.holds('R15g', f, 'zip@%d' % c.line, 'InsertStmt.columns in statement order' if has_stmt else 'schema order (no column list)')
+    rep.floor('R15g', 'positional pairings of an explicit column list with VALUES', n, 1)
+
+
 def run(ctx, rep):
     cr = ctx.crate('neumann_parser')
     r15a(ctx, rep, cr)
@@ -543,3 +591,4 @@ def run(ctx, rep):
     r15d(ctx, rep, cr)
     r15e(ctx, rep, cr)
     r15f(ctx, rep, cr)
+    r15g(ctx, rep)
